@@ -1074,6 +1074,12 @@ func (w *world) faults0(t *rt.Tape, res *core.Result, smp *sample) (*core.Failur
 			// in a process of its own: what kills it is a verdict, not the end of the check
 			ans, died, se := parseInChild(data)
 			rt.LogBytes('c', []byte(ans))
+			if died && !strings.Contains(se, "fatal error") && !strings.Contains(se, "panic") && !strings.Contains(se, "goroutine stack exceeds") {
+				// the child did not start or was killed from outside (a machine short of processes or
+				// memory): not the parser's doing, nothing is concluded
+				res.Reach["hostile-headers.child process unavailable (nothing concluded)"]++
+				return nil, 0, nil, nil
+			}
 			if died {
 				return &core.Failure{Clause: "parser-kills-the-process", Detail: fmt.Sprintf("%s (%d bytes, every declared size at most a million): the process that called ParseMPCLC died (%s): %s", smp.Mode, len(data), ans, se)}, 0, nil, nil
 			}
